@@ -122,7 +122,11 @@ impl KRange {
             }
         };
 
-        let end = if inclusive { end + 1 } else { end };
+        let end = if inclusive {
+            end.saturating_add(1)
+        } else {
+            end
+        };
         start..end.max(start)
     }
 
